@@ -33,6 +33,24 @@ theorem C08_no_body_replay (pol : Policy) (cfg : Cfg) (rq : ReqSpec) (n : Nat) (
     · rw [h4] at hb; cases hb
     · exact absurd h3 hb
 
+/-- **C08 (no consumed body is resent, given the transport's contract)**: let `cons i` be the number of client-body
+    bytes the i-th attempt consumed.  If the RoundTripper reports a ConnectError only for attempts that consumed
+    nothing (`hT`; judged on the real bfe_http.Transport by the `tr/` correspondence stream, oracle class
+    `connect-error-after-body-bytes`) and a body-less request has nothing to consume (`hB`), then whenever an
+    attempt is followed by another one, no attempt up to it has consumed a single body byte: the next attempt
+    starts with the body untouched. -/
+theorem C08_no_consumed_body_resent (pol : Policy) (cfg : Cfg) (rq : ReqSpec) (n : Nat) (s : LS) (last : Err)
+    (cons : Nat → Nat)
+    (hT : ∀ i b sub x snap, (loop pol cfg rq n s last).evs[i]? = some (.rt b sub x snap .connect) → cons i = 0)
+    (hB : rq.noBody = true → ∀ i, cons i = 0)
+    (i : Nat) (hi : i + 1 < (loop pol cfg rq n s last).evs.length) :
+    ∀ j, j ≤ i → cons j = 0 := by
+  intro j hj
+  obtain ⟨b, sub, x, snap, o, h1, h2⟩ := C08_resend_only_if pol cfg rq n s last j (by omega)
+  rcases h2 with h2 | ⟨_, _, _, h5⟩
+  · subst h2; exact hT j b sub x snap h1
+  · exact hB h5 j
+
 /-- **C08 (bound)**: the number of RoundTrip invocations of one clusterInvoke never exceeds
     1 + RetryMax + CrossRetry (counted from the entry RetryTime; 0 attempts if that is negative) nor the
     number of loop iterations. -/
